@@ -135,7 +135,9 @@ class Real(Type):
         elif data == 0.0:
             data = '0'
         else:
-            data = '{}E0'.format(data)
+            # str() may already use exponent notation ('1e+22').
+            mantissa, _, exponent = str(data).partition('e')
+            data = '{}E{}'.format(mantissa, int(exponent or 0))
 
         return data
 
